@@ -141,6 +141,14 @@ func probeTree(t *TreeOut, st *Stats) {
 		if f.FromAspect {
 			st.Probes["call-made-inside-aspect"]++
 		}
+		if f.Typ == 0xf1 && len(f.Prov) > 0 {
+			for g := f.Parent; g != nil; g = g.Parent {
+				if g.Typ == 0xfa {
+					st.Probes["join-point-fired-below-static-frame"]++
+					break
+				}
+			}
+		}
 		if len(f.AspIn) > 0 {
 			st.Probes["aspect-executed"]++
 		}
@@ -193,7 +201,15 @@ func init() {
 	register(&Check{ID: "C05", Level: "fault_enumeration",
 		Rule:   "same scenario family with calldata lengths from 0, precompile / code-less / non-existent targets, join-point switch toggled between transactions on one EVM; oracle = event grammar over provider events, Aspect-logger payloads and step/enter/exit events; each firing failed in turn; distinct = hash of event-kind sequence",
 		Assume: []string{"provider is asked once per firing whether or not anything is bound (aspect-core behaviour)"},
-		Real:   real, Stub: stub, Gen: treeGen("C05", treeOpts{bindProb: 60, aspectKind: "noop", multiTx: true, maxAspects: 2}), Run: treeCheck("C05", q(2, 1, false)),
+		Real:   real, Stub: stub, Gen: func(seed uint64, tier string) *Scenario {
+			// three runs in four have nothing bound (cheap: the firing grammar is observed through the
+			// provider alone, so many more call-tree shapes are covered); one in four binds WASM Aspects
+			// so that the payloads handed to them are checked too
+			if seed%4 != 0 {
+				return treeGen("C05", treeOpts{bindProb: 0, aspectKind: "noop", multiTx: true})(seed, tier)
+			}
+			return treeGen("C05", treeOpts{bindProb: 60, aspectKind: "noop", multiTx: true, maxAspects: 2})(seed, tier)
+		}, Run: treeCheck("C05", q(2, 1, false)),
 		Runs: map[string]int{"quick": 400, "thorough": 4000}})
 	register(&Check{ID: "C06", Level: "fault_enumeration",
 		Rule:   "call trees with burner Aspects (0, small, large, more-than-available iterations) bound at random subsets plus one injected burner / trap / loop at each firing in turn; oracle = gas equations over the history; distinct = hash of event-kind sequence",
